@@ -41,6 +41,18 @@ CHECKS = {
  "C16": dict(tech=ORACLE + " (nomenclature from the assignment); complete sole-metric / all-but-one / pair matrices + random histories",
    text="Nomenclature() compared with the group-membership oracle on every optional metric as the sole defined one (x value x background x history style), all-but-one, all pairs and random assignments built through hostile histories.",
    note="trusts Table 23 group membership in harness/spec/vocab.go", ref="3 C16"),
+ "C10": dict(tech="runtime monitoring: metamorphic sibling-equality monitor (objects with equal effective values must score equal); complete per-metric override matrix",
+   text="No model: objects that differ only in overridden base values, in where an effective value is carried (Modified vs base), in X vs explicit copy, in not-defined vs spelled-out default, in supplemental metrics (v4) or environmental metrics (v3 base/temporal) must return identical scores. Complete per overridable metric x base value x Modified value on seeded backgrounds incl. the all-None/all-High impact corners.",
+   note="defaults per specification tables; backgrounds sampled", ref="3 C10"),
+ "C12": dict(tech="runtime monitoring: every grid object scored once on a real object, then complete single-step edge comparison along the specification's severity orders",
+   text="All single-severity-step edges are compared on scores observed from real objects: v2.0 and v3.0 base x temporal, v3.1 base x temporal x requirements (3 scores), v4.0 all 15,116,544 effective classes (149.9M edges) -- complete in both tiers -- plus random raw steps on Modified / overridden metrics.",
+   note="trusts the severity orders in harness/spec/vocab.go; oracle-independent otherwise", ref="3 C12"),
+ "C15": dict(tech=ORACLE + " (interval function on the exact real value, math/big) over all thresholds +-ulps, all 101 scores, specials and random bit patterns",
+   text="The three Rating functions are compared with the statement's interval function at every one-decimal score, every threshold with 1-4 ulps on each side, signed zero, subnormals, infinities and millions of random float64 bit patterns; error identity and empty string checked.",
+   note="NaN unspecified and skipped", ref="3 C15"),
+ "C18": dict(tech="runtime monitoring: single-defect injector with planted ground truth; error identity monitor via errors.Is/errors.As",
+   text="Exactly one defect of a known kind is planted at every element position of covering and random well-formed vectors and the returned error must be the documented sentinel / typed error (with the right abbreviation); Get/Set over the complete hostile abbreviation x value matrix. Known finding F3 matched narrowly.",
+   note="expected values exactly as listed in C18; defect kinds the statement does not fix are not generated", ref="3 C18"),
 }
 NOT_YET = {}
 props = [json.loads(l)["id"] for l in open(os.path.join(ROOT, "properties.jsonl"))]
